@@ -21,7 +21,7 @@ PROPS["C16"] = dict(
          "these contain the prefixes 2^63-1, 2^64-1 and over-long forms - and a fixed hostile list (prefix values "
          "2^31+-1, 2^32+-1, 2^62, 2^63-2..2^63+11, 2^64-11..2^64-1 minimal and padded, all-80/all-ff runs of 1..12 groups); rapid grammar: "
          "prefix (hostile constant / body length -2..+2 / 2^63+-24, 2^64-24.. / 2^(7k)+-2 / small / random 64-bit; minimal or "
-         "over-long; 1..12 arbitrary or all-80/all-ff groups, terminated or not) + 0..20 body bytes; rapid mutation: 1..3 "
+         "over-long; 1..12 arbitrary or all-80/all-ff groups - one run in eight: 2^w/7 -2..+2 groups, w = 7, 8, 15, 16, see the shift-counter runs below - terminated or not) + 0..20 body bytes; rapid mutation: 1..3 "
          "valid items with one truncation / bit flip / extreme byte / extended prefix / deletion / append / prefix +-3. "
          "Large records (compact case form: hex head + n bytes of a seeded fill stream): enumerated - every body length within 9 "
          "of 2^k, k = 8..18 (thorough ..22), complete, cut short by one byte, followed by 3 more bytes, with an over-long prefix "
@@ -60,6 +60,28 @@ PROPS["C16"] = dict(
          "oracle as above. A decoder whose stack or memory grows with the run does not panic, it kills the process (fatal "
          "error: stack overflow is not recoverable): the driver reports signature process-crash, and the case that was "
          "running is left as TestC16LongRuns-inflight-*.json in the replay directory. "
+         "Shift-counter boundary runs (same case type, unit word_runs, BOTH tiers): a decoder of 7-bit groups adds 7 to its shift per "
+         "continuation byte; counted in an integer of w bits the shift wraps - or turns negative, and Go panics on a negative "
+         "shift amount - after 2^w/7 bytes of a number that goes on. Run lengths 2^w/7 -2..+2 for w = 7, 8, 15, 16 (18, 36, 4681, "
+         "9362 bytes) x head {none, 85, ff} x run byte {80, ff, 81, c3} x tail {unterminated, 00, 7f, 01+2 bytes, 00+a body of 5}, "
+         "both presentations; w = 31 (306783378 bytes = 293 MiB, built in place in one arena that is allocated once, one "
+         "presentation, every Unmarshal function - the five that begin with a variable-length number walk the whole run): in "
+         "the QUICK tier two cases, 2^31/7+2 continuation bytes 80 unterminated and 2^31/7+2 bytes ff + 00 + a body of 5 (one shard, "
+         "about 300 MB resident and 3..8 s; word_runs_peak_resident_kB), in the thorough tier every length -2..+2 unterminated and "
+         "terminated with three run bytes, and w = 32 (613566756 bytes = 585 MiB; three cases) - thorough only (classes "
+         "continuation_run_of_2^W/7_bytes, continuation_run_at_shift_counter_boundary_terminated / _unterminated, "
+         "prefix_of_2^W/7_groups_shift_counter_boundary for the rapid grammar). 2^63/7 and 2^64/7 bytes are not reachable. "
+         "Huge copies (big-copies case type with Sparse set, unit huge_copies, THOROUGH tier only): complete records with a body "
+         "of 2^31-1, 2^31, 2^31+1 (over-long prefix, 3 bytes behind) and 2^32+5 bytes - above MaxInt32, where a length held in 32 "
+         "bits or a limit on what a decoder is willing to duplicate first matters - lying in the lazily backed arena of C15's "
+         "huge bodies (the input costs address space only; blocks of 4 KiB at the start of the body, at every multiple of 2^28 "
+         "and at its end carry the position-dependent pattern, the rest is zero), decoded by every function INCLUDING newBuf=true, "
+         "which really duplicates the body (one copy alive at a time: 2..4 GiB resident, huge_copies_peak_resident_kB); oracle as "
+         "for big copies: failure -> zero bytes consumed, success -> 0 < n <= len, the copy compared IN FULL with in[n-len:n] "
+         "the moment the call returns and lying outside the input. Not in the quick tier: memory that a process touches for the "
+         "first time costs several seconds per GiB on this machine (one body of 2^31 bytes: 12..22 s, 2.1 GB), so a defect that "
+         "needs newBuf=true AND a complete body above 2 GiB is found by the thorough tier only (classes "
+         "big_record_body_2GiB_to_4GiB, big_record_body_ge_4GiB, big_record_sparse_content_in_lazily_backed_arena). "
          "Big copies (sixth case type, unit big_copies, BOTH tiers): a complete record whose body is 32..80 MiB - k*2^24 -1..+1 "
          "bytes, k = 2..5, and lengths in between (quick: 2^25-1, 2^25, 2^25+1, 40 MiB+777, 3*2^24, 2^26+1, 5*2^24; thorough 15 "
          "lengths) - with NON-ZERO, position-dependent content throughout (the k-th 8-byte word is (k+seed)*odd constant with the "
@@ -99,6 +121,7 @@ PROPS["C16"] = dict(
                  "an input of 64 MiB is an ordinary byte string: 'for every byte string each Unmarshal function returns without panicking' includes not exhausting the goroutine stack on it",
                  "'the returned bytes are ... a copy of [a sub-range of the input]' is a statement about the value the call returns: it holds the moment the call has returned, for whoever reads the result first and on however many processors the program runs (big_copies reads the result once, immediately; it never waits and looks again)",
                  "a record of 80 MiB is an ordinary byte string for newBuf=true as well (the process then holds the input and a copy)",
+                 "so is an input of 293 MiB (585 MiB in the thorough tier) that consists of continuation bytes, and - thorough tier - a complete record of 2 to 4 GiB decoded with newBuf=true: 'for every byte string' has no size limit, the tiers only differ in what they can afford",
                  "the native fuzzing stage (thorough) uses a test binary built with -fuzz (coverage instrumentation) and is seeded with the hostile inputs"],
     units=[
         dict(name="exhaustive", run="^TestC16Exhaustive$", shards=(6, 16), timeout=(200, 600)),
@@ -127,7 +150,7 @@ LEVEL_TEXT["C16"] = (
     "extreme group bytes (length prefixes made of all-ones / all-zero groups, including 2^63-1 and 2^64-1), a "
     "grammar of hostile length prefixes with short bodies and with records of up to 256 KiB (enumerated: up to 4 MiB, thorough "
     "8 MiB) around every power of two and around the small multiples of 4 KiB, 64 KiB and 1 MiB, mutated valid encodings, the same inputs decoded by up to 8 goroutines at once, runs of 1 to 64 MiB of continuation "
-    "bytes, records of 32 to 80 MiB of non-zero content whose newBuf=true copies are compared in full the moment the call returns (on one "
-    "processor, next to busy goroutines, on all processors), small valid inputs as the very first concurrent calls of a few hundred fresh processes and, in the thorough tier, "
+    "bytes and runs whose length crosses the point where a shift counter of 7, 8, 15, 16 or 31 bits (thorough: 32) is exhausted (18 bytes to 293 MiB), records of 32 to 80 MiB of non-zero content whose newBuf=true copies are compared in full the moment the call returns (on one "
+    "processor, next to busy goroutines, on all processors), in the thorough tier records of 2 to 4 GiB copied by newBuf=true, small valid inputs as the very first concurrent calls of a few hundred fresh processes and, in the thorough tier, "
     "native go fuzzing from the hostile seeds. No counterexample among the inputs counted in the evidence; not a proof for all byte strings."
 )
